@@ -14,7 +14,8 @@ EXTENDS Integers, FiniteSets, TLC, Json
 Networks == {"tcp", "unix", "http", "inproc", "ws", "frag"}     \* frag: UNIX socket with fragmented writes (harness socket)
 Headers == {"", "pb", "json", "code"}                            \* "": the built-in default header
 Codecs == {"json", "xml", "pb", "code", "msgp", "alias"}         \* alias: a BYTES-like codec (no copies)
-BufSizes == {0, 512, 70000}                                       \* 0: default (64 KiB); smaller / larger than the messages
+BufSizes == {0, 512, 3000, 70000}                                 \* 0: default (64 KiB); smaller / larger than the messages; 3000 and 70000 are not
+                                                                  \* the capacity of a pool size class (4096, 70656): messages in between exist
 
 Configs ==
     [network : Networks, tls : BOOLEAN, header : Headers, codec : Codecs, byname : BOOLEAN,
